@@ -370,6 +370,12 @@ func (s *Store) mergeSegStacks(footer *Footer, splicePoint int,
 	}
 
 	if footerSS != nil {
+		// The splice point was computed on the top-level collection; a
+		// child collection may have fewer persisted segments than that.
+		if splicePoint > lenFooterSS {
+			splicePoint = lenFooterSS
+		}
+
 		rv.a = append(rv.a, footerSS.a[splicePoint:]...)
 
 		if splicePoint > 0 {
@@ -409,6 +415,10 @@ func (s *Store) mergeSegStacks(footer *Footer, splicePoint int,
 }
 
 func (right *Footer) spliceFooter(left *Footer, splicePoint int) {
+	if splicePoint > len(left.SegmentLocs) { // See mergeSegStacks().
+		splicePoint = len(left.SegmentLocs)
+	}
+
 	slocs := make([]SegmentLoc, splicePoint, splicePoint+len(right.SegmentLocs))
 	copy(slocs, left.SegmentLocs[0:splicePoint])
 	slocs = append(slocs, right.SegmentLocs...)
